@@ -135,6 +135,8 @@ theorem vecFor_newOnly (cfg : Cfg) (r : Reporter) (kind : UseKind) (name : Bytes
     · exact summaryVec_newOnly _ r name keys
     · exact histogramVec_newOnly _ r name keys _
   | histogram spec => exact histogramVec_newOnly _ r name keys _
+  | counterAs => exact counterVec_newOnly r name keys
+  | gaugeAs => exact gaugeVec_newOnly r name keys
 
 theorem finishAlloc_static (cfg : Cfg) (p : Reporter × VecResult) (tags : Tags) :
     (finishAlloc cfg p tags).1.reg = p.1.reg ∧ (finishAlloc cfg p tags).1.counters = p.1.counters
@@ -271,6 +273,8 @@ theorem fresh_vec (cfg : Cfg) (r : Reporter) (kind : UseKind) (name : Bytes) (ke
     | true => exact ⟨mkFamily name keys .histogram cfg.defaultBounds, by simp [vecFor, histogramVec, ht, hr]⟩
     | false => exact ⟨mkFamily name keys .summary [], by simp [vecFor, summaryVec, ht, hr]⟩
   | histogram spec => exact ⟨mkFamily name keys .histogram spec.promBounds, by simp [vecFor, histogramVec, ht, hr]⟩
+  | counterAs => exact ⟨mkFamily name keys .counter [], by simp [vecFor, counterVec, hc, hr]⟩
+  | gaugeAs => exact ⟨mkFamily name keys .gauge [], by simp [vecFor, gaugeVec, hg, hr]⟩
 
 theorem fresh_usable (cfg : Cfg) (pre : List Ev) (kind : UseKind) (name : Bytes) (tags : Tags)
     (hn : ∀ u ∈ usesOf pre, u.2.1 ≠ name) : ∃ k, (useMetric cfg (run cfg pre).rep kind name tags).2 = .usable k := by
